@@ -132,11 +132,12 @@ PROPS = {
     "C01": dict(mc=["tcp_oneway", "ux_oneway", "tcp_twoway"], paths=["tcp_oneway", "ux_oneway"],
                 tps=["tcp", "ux", "uxf", "tls", "utls", "utlst", "tcp", "ux"], raw=0.0, profile="C01", blocking=0.25),
     "C02": dict(mc=["btcp_oneway", "btcp_inj"], paths=["btcp_oneway"], tps=["btcp", "btls", "btcp"], raw=0.0, profile="C02", blocking=0.35,
-                btls_send=True),
+                btls_send=True, sendonly=0.08),
     "C03": dict(mc=["tcp_oneway", "ux_oneway", "btcp_oneway"], paths=["tcp_oneway"],
                 tps=["tcp", "ux", "btcp", "uxf", "tls", "utls", "btls", "utlst"], raw=0.0, profile="C03", blocking=0.3, block=True),
     "C06": dict(mc=["tcp_oneway_inj", "btcp_inj", "ux_twoway"], dev=[("tcp_dev_epipe", "C06_DrainFirst", "epipe_closes")],
-                paths=["tcp_oneway_inj", "btcp_inj"], tps=["tcp", "btcp", "ux", "uxf", "tcp", "tls", "btls", "utls"], raw=0.25, profile="C06"),
+                paths=["tcp_oneway_inj", "btcp_inj"], tps=["tcp", "btcp", "ux", "uxf", "tcp", "tls", "btls", "utls"], raw=0.25, profile="C06",
+                sendonly=0.3),
     "C07": dict(mc=["tcp_hostile"], paths=["tcp_hostile"], tps=["tcp", "tls", "tcp"], raw=1.0, profile="default"),
     "C16": dict(mc=["tcp_cond", "ux_twoway", "btcp_oneway"], paths=["tcp_cond"], mc_quick=["tcp_cond_q", "ux_twoway", "btcp_oneway"],
                 paths_quick=["tcp_cond_q"], tps=["tcp", "btcp", "ux", "uxf", "tls", "utlst", "utls"], raw=0.0, profile="C16", tlsready=True),
@@ -393,6 +394,9 @@ def check(pid, tier, seed, only_random=False, extra=None):
         if rnd.random() < spec["raw"] and tp in ("tcp", "tls"):
             scripts.append(conn.gen_raw_exec(rnd, xid, tp))
             origin[xid] = ("raw", None)
+        elif tp in ("btcp", "btls") and rnd.random() < spec.get("sendonly", 0.0):
+            scripts.append(conn.gen_sendonly_exec(rnd, xid, tp))
+            origin[xid] = ("sendonly", None)
         elif rnd.random() < spec.get("loop", 0.0):
             scripts.append(conn.gen_loop_exec(rnd, xid, tp))
             origin[xid] = ("loop", None)
